@@ -94,7 +94,12 @@ impl MelGeneralizedCepstrum {
     }
 
     pub fn mgc2mgc(&self, m2: usize, alpha: f64, gamma: f64) -> Self {
-        if self.alpha == alpha {
+        if self.alpha == alpha && self.gamma == gamma && self.len() == m2 + 1 {
+            // Nothing to convert. Running the recursions anyway is an identity only in exact
+            // arithmetic; in floating point it perturbs large coefficients enough to push
+            // poles close to the unit circle outside of it.
+            self.clone()
+        } else if self.alpha == alpha {
             self.gnorm().gc2gc(m2, gamma).ignorm()
         } else {
             let alpha = (alpha - self.alpha) / (1.0 - self.alpha * alpha);
